@@ -54,6 +54,7 @@ type propRun struct {
 	update    bool
 	verbose   bool
 	quickT    int
+	outDir    string
 	slowT     int
 }
 
@@ -75,6 +76,7 @@ func main() {
 		fs.BoolVar(&r.dump, "dump", false, "keep SMT files and print failing obligations in detail")
 		fs.BoolVar(&r.update, "update-expect", false, "rewrite the .expect list from the discharged obligations")
 		fs.BoolVar(&r.verbose, "v", false, "verbose")
+		fs.StringVar(&r.outDir, "out", "", "write evidence/ and replay/ below this directory instead of the verif dir (scratch runs)")
 		fs.IntVar(&r.quickT, "qt", 3, "first solver timeout (s)")
 		fs.IntVar(&r.slowT, "st", 30, "fallback solver timeout (s)")
 		_ = fs.Parse(os.Args[2:])
@@ -401,10 +403,10 @@ func runCheck(r *propRun) int {
 
 	// report
 	exit := 0
-	replayDir := filepath.Join(r.verif, "replay", r.prop)
+	replayDir := filepath.Join(r.outBase(), "replay", r.prop)
 	emit := func(name, reason string, v *Verdict) {
 		_ = os.MkdirAll(replayDir, 0o755)
-		rp := filepath.Join(replayDir, sanitize(strings.TrimPrefix(name, r.prop+"/"))+".json")
+		rp := filepath.Join(replayDir, fileBase(strings.TrimPrefix(name, r.prop+"/"))+".json")
 		rec := map[string]interface{}{"property": r.prop, "obligation": name, "reason": reason, "tier": r.tier}
 		suffix := " no-failing-input-found"
 		if v != nil {
@@ -539,10 +541,10 @@ func runCheck(r *propRun) int {
 		"wall_s":      round3(time.Since(t0).Seconds()),
 		"violations":  len(violations) + len(missing) + len(funcErrs),
 	}
-	_ = os.MkdirAll(filepath.Join(r.verif, "evidence"), 0o755)
+	_ = os.MkdirAll(filepath.Join(r.outBase(), "evidence"), 0o755)
 	data, _ := json.MarshalIndent(ev, "", " ")
 	if r.funcOnly == "" {
-		_ = os.WriteFile(filepath.Join(r.verif, "evidence", r.prop+".json"), data, 0o644)
+		_ = os.WriteFile(filepath.Join(r.outBase(), "evidence", r.prop+".json"), data, 0o644)
 	}
 	fmt.Printf("%s %s: %d functions, %d obligations, %d discharged, %d cover ok, %d violations, %d known; load %.1fs gen %.1fs solve %.1fs\n",
 		r.prop, r.tier, len(funcs), nObl, nDis, nCover, len(violations)+len(missing)+len(funcErrs), len(knownHit), tLoad, tGen, tSolve)
@@ -566,9 +568,16 @@ func truncate(s string, n int) string {
 	return s
 }
 
+func (r *propRun) outBase() string {
+	if r.outDir != "" {
+		return r.outDir
+	}
+	return r.verif
+}
+
 func failHard(r *propRun, msg string) int {
-	_ = os.MkdirAll(filepath.Join(r.verif, "replay", r.prop), 0o755)
-	rp := filepath.Join(r.verif, "replay", r.prop, "generate.json")
+	_ = os.MkdirAll(filepath.Join(r.outBase(), "replay", r.prop), 0o755)
+	rp := filepath.Join(r.outBase(), "replay", r.prop, "generate.json")
 	data, _ := json.MarshalIndent(map[string]interface{}{"property": r.prop, "obligation": r.prop + "/generate", "reason": msg}, "", " ")
 	_ = os.WriteFile(rp, data, 0o644)
 	fmt.Printf("VIOLATION property=%s replay=%s obligation=%s/generate (%s) no-failing-input-found\n", r.prop, rp, r.prop, strings.ReplaceAll(msg, "\n", " | "))
@@ -576,8 +585,8 @@ func failHard(r *propRun, msg string) int {
 		"coverage": map[string]interface{}{"obligations": 1, "discharged": 0, "checker_cmd": "./check " + r.prop, "trusted_base": []string{}, "explanation": msg},
 		"wall_s":   0.0, "violations": 1}
 	data, _ = json.MarshalIndent(ev, "", " ")
-	_ = os.MkdirAll(filepath.Join(r.verif, "evidence"), 0o755)
-	_ = os.WriteFile(filepath.Join(r.verif, "evidence", r.prop+".json"), data, 0o644)
+	_ = os.MkdirAll(filepath.Join(r.outBase(), "evidence"), 0o755)
+	_ = os.WriteFile(filepath.Join(r.outBase(), "evidence", r.prop+".json"), data, 0o644)
 	return 1
 }
 
@@ -599,6 +608,13 @@ func (e *Engine) lemmaQuery(l *Lemma) (q string, err error) {
 		}
 	}()
 	env := ex.newEnv(l.PkgPath, st)
+	for _, ln := range l.Uses {
+		for _, o := range e.lemmas {
+			if o.Name == ln && o.PkgPath == l.PkgPath && o != l {
+				ex.assumeRaw(ex.evalSpec(env, o.E).S())
+			}
+		}
+	}
 	var asserts []*Term
 	for _, a := range e.axioms {
 		if a.PkgPath == l.PkgPath || a.PkgPath == "" {
